@@ -305,8 +305,19 @@ def stream_spec(draw, max_samples_per_file=6):
         sections = [draw(st.integers(1, 6 * samp_bytes)) for _ in range(nfiles)]
     else:
         sections = [samp_bytes * draw(st.integers(1, max_samples_per_file)) for _ in range(nfiles)]
-        if nfiles == 3 and draw(st.integers(0, 9)) == 0:
-            sections[1] = 0
+        if nfiles >= 2 and draw(st.integers(0, 6)) == 0:
+            # header-only members (no data at all): in the middle, at the end (one or two of them) or at the start
+            where = draw(st.sampled_from(["middle", "last", "last", "last2", "first"]))
+            if where == "middle" and nfiles == 3:
+                sections[1] = 0
+            elif where == "last":
+                sections[-1] = 0
+            elif where == "last2" and nfiles == 3:
+                sections[1] = sections[2] = 0
+            elif where == "first":
+                sections[0] = 0
+            else:
+                sections[-1] = 0
             ragged = True  # contiguity of an empty member is not meaningful: opened without the check
     same_as = None
     if nfiles >= 2 and draw(st.integers(0, 7)) == 0:
@@ -314,6 +325,9 @@ def stream_spec(draw, max_samples_per_file=6):
         sections[-1] = sections[0]
         same_as = [None] * (nfiles - 1) + [0]
         ragged = True
+    if sum(sections) == 0:  # a stream must hold something to read
+        same_as = None
+        sections[0] = samp_bytes * 2
     return {"nbits": nbits, "nchans": nchans, "sections": sections, "seed": draw(st.integers(0, 2**31 - 1)),
             "ragged": ragged, "relpath": draw(st.sampled_from([False, False, False, True])), "same_as": same_as}
 
